@@ -68,8 +68,18 @@ impl Hook {
         };
 
         for function in functions {
-            let res = function(ax, mnemonic)?;
-            if ax.state.finished || res == HookResult::Handled {
+            // Execution may already be finished here (after hooks of the last instruction);
+            // only a hook that stops execution itself ends the chain
+            let was_finished = ax.state.finished;
+            let res = match function(ax, mnemonic) {
+                Ok(res) => res,
+                Err(e) => {
+                    // A failing hook is no longer running
+                    ax.hooks.running = false;
+                    return Err(e.into());
+                }
+            };
+            if (ax.state.finished && !was_finished) || res == HookResult::Handled {
                 ax.hooks.running = false;
                 return Ok(());
             }
